@@ -68,6 +68,10 @@ class CustomError(Exception):
 EXC_TYPES = {c.__name__: c for c in (ValueError, KeyError, TypeError, AssertionError, RuntimeError, CustomError,
                                      AttributeError, ZeroDivisionError, LookupError, OSError, StopIteration, NotImplementedError)}
 EXC_TYPES['ValidationError'] = validators.ValidationError
+# the library's own non-protocol exceptions escaping from a method body (a gateway method using a pjrpc client)
+EXC_TYPES['DeserializationError'] = pjrpc.exc.DeserializationError
+EXC_TYPES['IdentityError'] = pjrpc.exc.IdentityError
+EXC_TYPES['BaseError'] = pjrpc.exc.BaseError
 
 
 def norm(v):
@@ -307,7 +311,12 @@ def build_dispatcher(cfg, is_async, fresh=False, coroutine_methods=None):
             for e in cfg['handlers']}
     if is_async and cfg.get('concurrent_batch') is not None:
         kwargs['concurrent_batch'] = cfg['concurrent_batch']
-    d = (pjrpc.server.AsyncDispatcher if is_async else pjrpc.server.Dispatcher)(**kwargs)
+    cls_d = pjrpc.server.AsyncDispatcher if is_async else pjrpc.server.Dispatcher
+    if kwargs.get('middlewares') or kwargs.get('error_handlers'):
+        # the same middleware list / handler table *objects* configure another dispatcher first (a shared setting):
+        # the dispatcher under test must still see them as declared
+        cls_d(**kwargs)
+    d = cls_d(**kwargs)
     for m in cfg['methods']:
         key = m.get('key') or m['name']
         excluded = m.get('excluded') or []
@@ -317,7 +326,7 @@ def build_dispatcher(cfg, is_async, fresh=False, coroutine_methods=None):
                 _VerdictValidator(key, excluded).validate(cls.vm)
             d.registry.add_methods(pjrpc.server.dispatcher.ViewMethod(cls, 'vm', key, m.get('ctx'), bool(m.get('positional'))))
         else:
-            f = make_callable(key, m['sig'], coroutine_methods, False, deco=bool(m.get('deco')))
+            f = make_callable(m.get('fn') or key, m['sig'], coroutine_methods, False, deco=bool(m.get('deco')))
             if m.get('post') is not None or excluded:
                 _VerdictValidator(key, excluded).validate(f)
             d.registry.add_methods(pjrpc.server.Method(f, key, m.get('ctx'), bool(m.get('positional'))))
@@ -333,6 +342,8 @@ def set_bodies(cfg):
         b['_name'] = m['name']
         b['_post'] = m.get('post')
         CURRENT['bodies'][m.get('key') or m['name']] = b
+        if m.get('fn'):
+            CURRENT['bodies'][m['fn']] = b          # one function object registered under several names
 
 
 _LOOP = None
